@@ -2,6 +2,7 @@
 import random
 
 from adapters import C01
+from adapters import poolconf, poolsim
 
 JUDGE = {"r": 1, "t": 1, "l": 0}
 
@@ -45,5 +46,11 @@ def run(ctx):
                 "number, so a result leaking from an earlier call is rejected by the results clause; results and termination clauses "
                 "enforced; schedules by preemption-bounded DFS, random and PCT walks; every execution validated by TLC against PoolObs.tla")
     ctx.assumptions += ["an explicit integer work_queue_maxsize is not smaller than the number of workers (see KNOWN_FINDINGS / DESIGN 5)"]
+    # design level: exhaustive TLC runs of FunctorPool.tla and conformance of the real code with it
+    hconf = poolsim.Harness()
+    crnd = random.Random(ctx.seed * 7919 + 55)
+    configs = [('C21', 1, 1, 0), ('C102u', 2, 2, 1)] if quick else [('C21', 1, 1, 0), ('C21', 2, 2, 0), ('C102u', 2, 2, 1), ('C22', 2, 2, 1), ('C22', 2, 1, 0)]
+    hconf.shared = hconf.learn(poolconf.scen_for("C2", 1, 1, 0, JUDGE), crnd)
+    poolconf.design_legs(ctx, configs, ['CallOK', 'NoBad', 'NoLeftovers', 'NoDeadlock'], False, ['CallOK'], hconf, crnd, 30 if quick else 300, 30 if quick else 300, JUDGE)
     rnd = random.Random(ctx.seed * 7919 + 103)
     C01.run_family(ctx, scenarios(rnd, quick), 200 if quick else 3000, "C03")
